@@ -127,15 +127,30 @@ type ContractSet struct {
 	Problems    []string
 	// address-taken hints, small-type hints etc.
 	CounterFields map[string]bool
+	Monitors      map[string]*MonitorDecl
 }
 
 var clauseKeywords = map[string]bool{
 	"props": true, "requires": true, "ensures": true, "modifies": true, "loop": true, "at": true,
 	"panics_if": true, "safety": true, "inline": true, "noinline": true, "assume": true,
 	"lockeffect": true, "rlockeffect": true, "ghostset": true, "pure": true, "havoc": true, "fresh": true,
-	"nobalance": true, "trustcall": true, "trusted": true,
+	"nobalance": true, "trustcall": true, "trusted": true, "guards": true, "invariant": true,
 }
-var declKeywords = map[string]bool{"func": true, "stub": true, "pred": true, "ghost": true}
+var declKeywords = map[string]bool{"func": true, "stub": true, "pred": true, "ghost": true, "monitor": true}
+
+// MonitorDecl: state guarded by one mutex field. When the lock of object x is
+// acquired, the guarded fields of x are havocked (other threads may have
+// changed them) and the invariant is assumed; when it is released, the
+// invariant is an obligation.
+type MonitorDecl struct {
+	Key      string // "<pkgrel>.T.lockfield"
+	TypeName string
+	Pkg      *packages.Package
+	Props    []string
+	Guards   []string // field names of T
+	Inv      []*Clause
+	Pos      string
+}
 
 var labelRe = regexp.MustCompile(`^([A-Za-z0-9_\-]+):([^:]|$)`)
 
@@ -144,6 +159,7 @@ func LoadContracts(p *Program) (*ContractSet, error) {
 		GhostFields: map[string]*GhostFieldDecl{}, CounterFields: map[string]bool{}}
 	cs.GhostMaps["held"] = &GhostMapDecl{Name: "held", Key: "ref", Val: "int", Zero: true, Stable: true}
 	cs.GhostMaps["rheld"] = &GhostMapDecl{Name: "rheld", Key: "ref", Val: "int", Zero: true, Stable: true}
+	cs.GhostMaps["closed"] = &GhostMapDecl{Name: "closed", Key: "ref", Val: "bool"}
 	for _, src := range p.contractSources() {
 		cs.Files = append(cs.Files, src.File)
 		if !src.CommentOnly {
@@ -284,6 +300,34 @@ func (cs *ContractSet) parseDecl(src contractSource, d *rawDecl) error {
 			return nil
 		}
 		return fmt.Errorf("%s: malformed ghost declaration: %s", d.head.Pos, rest)
+	case "monitor":
+		// monitor T.lockfield / props ... / guards f g / invariant expr (over `this`)
+		parts := strings.SplitN(strings.TrimSpace(rest), ".", 2)
+		if len(parts) != 2 || src.Pkg == nil {
+			return fmt.Errorf("%s: malformed monitor declaration: %s", d.head.Pos, rest)
+		}
+		md := &MonitorDecl{Key: relPkg(src.Pkg.PkgPath) + "." + strings.TrimSpace(rest), TypeName: parts[0], Pkg: src.Pkg, Pos: d.head.Pos}
+		for _, c := range d.clauses {
+			switch c.kw {
+			case "props":
+				md.Props = append(md.Props, strings.Fields(c.text)...)
+			case "guards":
+				md.Guards = append(md.Guards, strings.Fields(c.text)...)
+			case "invariant":
+				cl, err := parseLabeled(c.text, c.pos)
+				if err != nil {
+					return fmt.Errorf("%s: monitor %s: %v", c.pos, md.Key, err)
+				}
+				md.Inv = append(md.Inv, cl)
+			default:
+				return fmt.Errorf("%s: monitor %s: unknown clause %q", c.pos, md.Key, c.kw)
+			}
+		}
+		if cs.Monitors == nil {
+			cs.Monitors = map[string]*MonitorDecl{}
+		}
+		cs.Monitors[md.Key] = md
+		return nil
 	case "func", "stub":
 		name := strings.TrimSpace(rest)
 		fc := &FuncContract{Name: name, IsStub: kw == "stub", Pkg: src.Pkg, Loops: map[int]*LoopSpec{}, Safety: map[string]bool{}, Pos: d.head.Pos}
